@@ -227,6 +227,22 @@ def euclid(chk, prog):
     run = lambda a, b: Interp(prog, oracle=no_shortcut).run(f, [a.copy(), b.copy()])
     chk.ob("SYMMETRY", f.ref, "euclidean(x,y) == euclidean(y,x)", lambda: eq(run(y, x), run(x, y), "swap"), module=MET, function="euclidean", construct="symmetry", line=f.node.lineno)
 
+    def closed(first):
+        def oracle(c, it_):
+            if c.op == "min":
+                return 0 if first else 1
+            return no_shortcut(c, it_)
+        v = Interp(prog, oracle=oracle).run(f, [x.copy(), y.copy()])
+        d = [P.absf(a_ - b_) for a_, b_ in zip(x, y)]
+        want = sum(((t_ if first else (2 * P.sym("pi") - t_)) ** 2 for t_ in d), P.ZERO)
+        return eq(v * v, want, "euclidean^2 [%s arm]" % ("direct" if first else "wrapped"))
+    chk.ob("CLOSED", f.ref + "::direct", "euclidean(x,y)^2 == sum |x_i - y_i|^2 where every difference is at most pi", lambda: closed(True),
+           module=MET, function="euclidean", construct="closed form (direct differences)", line=f.node.lineno)
+    chk.ob("CLOSED", f.ref + "::wrapped", "euclidean(x,y)^2 == sum (2 pi - |x_i - y_i|)^2 where every difference exceeds pi", lambda: closed(False),
+           module=MET, function="euclidean", construct="closed form (wrapped differences)", line=f.node.lineno)
+    chk.ob("CLOSED", f.ref + "::identity", "euclidean(x, x) == 0", lambda: eq(Interp(prog, oracle=no_shortcut).run(f, [x.copy(), x.copy()]), P.ZERO, "euclidean(x, x)"),
+           module=MET, function="euclidean", construct="zero on identical arguments", line=f.node.lineno)
+
     def twin():
         x2, y2 = sym_vec("fx", 3), sym_vec("fy", 3)
         got = to_obj(Interp(prog, oracle=no_shortcut).run(f, [np.vstack([x, x2]), np.vstack([y, y2])]))
